@@ -17,4 +17,9 @@ HARNESSES = [
     VERDICT("verdict_tls12", 12, {"matrixssl/matrixssl.c": ["matrixValidateCertsExt"]}, ["matrixssl/matrixssl.c", "core/src/corelib_strings.c"]),
     VERDICT("verdict_tls13", 13, {"matrixssl/matrixssl.c": ["matrixValidateCertsExt"]}, ["matrixssl/matrixssl.c", "core/src/corelib_strings.c"]),
 ]
-PROPERTY = dict(level="model_checking", explanation="", bounds="", outside="", assumptions=[])
+PROPERTY = dict(level='model_checking',
+    claim='The certificate step of the handshake (TLS<=1.2 parseCertificate; TLS 1.3 tls13ValidateCertChain) succeeds only if validation returned >= 0 with every certificate PS_CERT_AUTH_PASS and a trust-anchor list configured, or a registered callback returned 0 / ALLOW_ANON; the same oracle text is asserted for both protocol families.',
+    bounds='chains of 1-2 certificates; validation outcome arbitrary (10 status values x arbitrary flags x arbitrary return code)',
+    outside='proof-of-possession checks (ServerKeyExchange / CertificateVerify signatures) are not yet encoded',
+    explanation='The certificate step of the handshake (TLS<=1.2 parseCertificate; TLS 1.3 tls13ValidateCertChain) succeeds only if validation returned >= 0 with every certificate PS_CERT_AUTH_PASS and a trust-anchor list configured, or a registered callback returned 0 / ALLOW_ANON; the same oracle text is asserted for both protocol families.',
+    assumptions=[])
